@@ -5,20 +5,38 @@ From Coq Require Import Arith.
 Open Scope nat_scope.
 
 (** the case the model produces for a history *)
-Definition model_case (cap : nat) (pool : list cert) (ops : list op) (queries : list name) : case :=
-  Case cap pool (combine (map Some ops) (trace cap init ops))
-       (map (fun q => (q, map c_hash (all_matching (run cap init ops) q))) queries).
-Definition case_certs_of (pool : list cert) (ops : list op) : list cert :=
-  pool ++ flat_map certs_of_op ops.
+Definition wstep_of (d : dstate) (o : dop) : wstep :=
+  let d' := dstep d o in
+  match o with
+  | DOp o => WOp o
+  | DSetCap z vs => WSetCap z vs (d_cap d')
+  | DQuery q => WQuery q (answer (d_st d') q)
+  | DStop => WStop
+  | DScan r => WScan r (view_of (scan_view r (d_st d')))
+  end.
+Fixpoint model_steps (d : dstate) (ops : list dop) : list (wstep * state) :=
+  match ops with
+  | [] => []
+  | o :: r => let d' := dstep d o in (wstep_of d o, d_st d') :: model_steps d' r
+  end.
+Definition model_case (cap : nat) (pool : list cert) (ops : list dop) (queries : list name) : case :=
+  Case cap pool (model_steps (dinit cap) ops)
+       (map (fun q => (q, answer (d_st (drun (dinit cap) ops)) q)) queries).
+Definition certs_of_dop (o : dop) : list cert := match o with DOp o => certs_of_op o | _ => [] end.
+Definition case_certs_of (pool : list cert) (ops : list dop) : list cert :=
+  pool ++ flat_map certs_of_dop ops.
 
-Lemma flat_map_combine_fst cap ops : forall s,
-  flat_map (fun st : option op * state => certs_of_step (fst st)) (combine (map Some ops) (trace cap s ops)) =
-  flat_map certs_of_op ops.
-Proof. induction ops as [|o ops IH]; intros s; cbn; [reflexivity|]. rewrite IH. reflexivity. Qed.
+Lemma flat_map_model_steps ops : forall d,
+  flat_map (fun st : wstep * state => certs_of_step (fst st)) (model_steps d ops) =
+  flat_map certs_of_dop ops.
+Proof.
+  induction ops as [|o ops IH]; intros d; cbn [model_steps flat_map fst]; [reflexivity|].
+  rewrite IH. destruct o; reflexivity.
+Qed.
 
 Lemma case_certs_model cap pool ops queries :
   case_certs (model_case cap pool ops queries) = case_certs_of pool ops.
-Proof. unfold case_certs, case_certs_of, model_case. cbn. rewrite flat_map_combine_fst. reflexivity. Qed.
+Proof. unfold case_certs, case_certs_of, model_case. cbn. rewrite flat_map_model_steps. reflexivity. Qed.
 
 Lemma last_cons {A} (a : A) l d : last (a :: l) d = last l a.
 Proof.
@@ -26,11 +44,11 @@ Proof.
   change (last (a :: b :: l) d) with (last (b :: l) d). rewrite (IH b d), (IH b a). reflexivity.
 Qed.
 
-Lemma final_obs_model cap ops : forall s,
-  last (map snd (combine (map Some ops) (trace cap s ops))) s = run cap s ops.
+Lemma final_obs_model ops : forall d,
+  last (map snd (model_steps d ops)) (d_st d) = d_st (drun d ops).
 Proof.
-  induction ops as [|o ops IH]; intros s; [reflexivity|].
-  cbn [trace combine map snd]. rewrite last_cons. apply IH.
+  induction ops as [|o ops IH]; intros d; [reflexivity|].
+  cbn [model_steps map snd]. rewrite last_cons. apply IH.
 Qed.
 
 Lemma incl_b_refl l : incl_b l l = true.
@@ -45,16 +63,33 @@ Proof.
   apply forallb_forall. intros [k v] Hin. cbn [fst snd].
   rewrite (In_alookup m k v Hnd Hin). apply Hrefl.
 Qed.
+Lemma cert_eqb_refl c : cert_eqb c c = true.
+Proof. apply cert_eqb_eq. reflexivity. Qed.
+Lemma strs_eqb_refl l : strs_eqb l l = true.
+Proof. apply strs_eqb_eq. reflexivity. Qed.
+
+Lemma NoDup_map_filter {A B} (f : A -> B) (p : A -> bool) l : NoDup (map f l) -> NoDup (map f (filter p l)).
+Proof.
+  induction l as [|x l IH]; cbn; [auto|]. intros H. inversion H as [|? ? Hnin Hnd]; subst.
+  destruct (p x); cbn; [|auto]. constructor; [|auto].
+  intros Hin. apply Hnin. apply in_map_iff in Hin. destruct Hin as (y & Hy & Hin).
+  apply in_map_iff. exists y. split; [exact Hy|]. apply filter_In in Hin. tauto.
+Qed.
 
 Section Spec.
   Variable names_of : hash -> list name.
-  Variable cap : nat.
-  Notation Inv := (Inv names_of cap).
 
-  Lemma readd_ok_model s c v : Inv s -> readd_ok s c (add_cert cap c v s) = true.
+  Lemma state_eqb_refl cap s : Inv names_of cap s -> state_eqb s s = true.
+  Proof.
+    intros HI. unfold state_eqb. apply andb_true_iff. split.
+    - apply amap_eqb_refl; [apply cert_eqb_refl | apply (inv_nodup _ _ s HI)].
+    - apply amap_eqb_refl; [apply strs_eqb_refl | apply (inv_nodup_idx _ _ s HI)].
+  Qed.
+
+  Lemma readd_ok_model cap s c v : Inv names_of cap s -> readd_ok s c (add_cert cap c v s) = true.
   Proof.
     intros HI. unfold readd_ok. destruct (alookup (c_hash c) (cache s)) as [e|] eqn:E; [|reflexivity].
-    destruct (readd_merges_tags cap s c v e E) as (Hix & Hlen & Hkeys & Hother & e' & He' & Heq & Htags & _).
+    destruct (readd_merges_tags cap s c v e E) as (Hix & Hlen & Hkeys & Hother & e' & He' & Heq & Htags & Hnd).
     rewrite He', Hlen, Hkeys, Hix, Nat.eqb_refl, incl_b_refl. cbn [andb].
     rewrite amap_eqb_refl;
       [|intros l; apply strs_eqb_eq; reflexivity | apply (inv_nodup_idx _ _ s HI)].
@@ -63,38 +98,108 @@ Section Spec.
     rewrite (incl_b_In (c_tags e) (c_tags e')) by (intros x Hx; apply Htags; auto).
     rewrite (incl_b_In (c_tags c) (c_tags e')) by (intros x Hx; apply Htags; auto).
     rewrite (incl_b_In (c_tags e') (c_tags e ++ c_tags c)) by (intros x Hx; apply in_app_iff, Htags, Hx).
+    cbn [andb].
+    replace (negb (nodup_b (c_tags e)) || nodup_b (c_tags e')) with true
+      by (destruct (nodup_b (c_tags e)) eqn:En; [|reflexivity]; cbn [negb orb]; symmetry;
+          apply nodup_b_NoDup, Hnd, nodup_b_true, En).
     cbn [andb]. apply forallb_forall. intros [k x] Hin. cbn [fst snd].
     destruct (str_eqb_spec k (c_hash c)) as [->|Hne]; [reflexivity|]. cbn [orb].
     rewrite (Hother k Hne), (In_alookup _ k x (inv_nodup _ _ s HI) Hin).
     apply cert_eqb_eq. reflexivity.
   Qed.
 
-  Lemma step_spec_model s o : Inv s -> step_spec_b s (Some o) (step cap s o) = true.
-  Proof. intros HI. destruct o; cbn [step_spec_b step]; try reflexivity. apply readd_ok_model, HI. Qed.
+  (** ---- write-backs: a relation that composes, and implies the boolean clause ---- *)
+  Section WriteBack.
+    Variable P : cert -> cert -> Prop.
+    Variable pb : cert -> cert -> bool.
+    Hypothesis P_refl : forall e, P e e.
+    Hypothesis P_trans : forall a b c, P a b -> P b c -> P a c.
+    Hypothesis P_pb : forall e x, P e x -> pb e x = true.
 
-  Lemma steps_spec_model ops : forall s,
-    Inv s -> Forall (wf_op names_of) ops -> steps_spec s (combine (map Some ops) (trace cap s ops)) = true.
+    Definition wb_rel (hs : list hash) (s s' : state) : Prop :=
+      index s' = index s /\ akeys (cache s') = akeys (cache s) /\
+      forall h e, alookup h (cache s) = Some e ->
+        exists x, alookup h (cache s') = Some x /\ (x = e \/ (In h hs /\ P e x)).
+
+    Lemma wb_rel_refl hs s : wb_rel hs s s.
+    Proof. split; [reflexivity|]. split; [reflexivity|]. intros h e E. exists e. auto. Qed.
+    Lemma wb_rel_trans hs s1 s2 s3 : wb_rel hs s1 s2 -> wb_rel hs s2 s3 -> wb_rel hs s1 s3.
+    Proof.
+      intros (Hi1 & Hk1 & H1) (Hi2 & Hk2 & H2). split; [congruence|]. split; [congruence|].
+      intros h e E. destruct (H1 h e E) as (x & Ex & Hx). destruct (H2 h x Ex) as (y & Ey & Hy).
+      exists y. split; [exact Ey|].
+      destruct Hx as [->|[Hin Hp]]; destruct Hy as [->|[Hin' Hp']]; auto.
+      right. split; [exact Hin | eapply P_trans; eauto].
+    Qed.
+    Lemma wb_rel_mono hs hs' s s' : (forall h, In h hs -> In h hs') -> wb_rel hs s s' -> wb_rel hs' s s'.
+    Proof.
+      intros Hsub (Hi & Hk & H). split; [exact Hi|]. split; [exact Hk|].
+      intros h e E. destruct (H h e E) as (x & Ex & [Hx|[Hin Hp]]); exists x; auto.
+    Qed.
+    Lemma same_but_wb_rel f h s s' :
+      (forall e, P e (f e)) -> same_but f h s s' -> wb_rel [h] s s'.
+    Proof.
+      intros Hf (Hi & Hk & Hother & Hh). split; [exact Hi|]. split; [exact Hk|].
+      intros h0 e E. destruct (str_eqb_spec h0 h) as [->|Hne].
+      - rewrite E in Hh. exists (f e). split; [exact Hh|]. right. split; [left; reflexivity | apply Hf].
+      - exists e. rewrite (Hother h0 Hne). auto.
+    Qed.
+
+    Lemma writeback_ok_of_rel cap hs s s' :
+      Inv names_of cap s -> wb_rel hs s s' -> writeback_ok pb hs s s' = true.
+    Proof.
+      intros HI (Hi & Hk & H). unfold writeback_ok. rewrite Hi.
+      rewrite amap_eqb_refl; [|apply strs_eqb_refl | apply (inv_nodup_idx _ _ s HI)].
+      assert (Hlen : length (cache s') = length (cache s)).
+      { unfold akeys in Hk. rewrite <- (map_length fst (cache s')), Hk. apply map_length. }
+      rewrite Hlen, Nat.eqb_refl. cbn [andb].
+      apply forallb_forall. intros [k e] Hin. cbn [fst snd].
+      apply In_alookup in Hin; [|apply (inv_nodup _ _ s HI)].
+      destruct (H k e Hin) as (x & Ex & Hx). rewrite Ex.
+      destruct Hx as [->|[Hin' Hp]].
+      - destruct (mem_str k hs); [apply P_pb, P_refl | apply cert_eqb_refl].
+      - assert (Hm : mem_str k hs = true) by (apply mem_str_In; exact Hin'). rewrite Hm. apply P_pb, Hp.
+    Qed.
+  End WriteBack.
+
+  Definition P_ocsp (e x : cert) : Prop := x = set_ocsp e (c_ocsp x).
+  Definition P_ari (e x : cert) : Prop := x = set_ari e (c_ari x).
+  Lemma P_ocsp_refl e : P_ocsp e e. Proof. destruct e; reflexivity. Qed.
+  Lemma P_ari_refl e : P_ari e e. Proof. destruct e; reflexivity. Qed.
+  Lemma P_ocsp_trans a b c : P_ocsp a b -> P_ocsp b c -> P_ocsp a c.
+  Proof. unfold P_ocsp. intros -> ->. destruct a; reflexivity. Qed.
+  Lemma P_ari_trans a b c : P_ari a b -> P_ari b c -> P_ari a c.
+  Proof. unfold P_ari. intros -> ->. destruct a; reflexivity. Qed.
+  Lemma P_ocsp_pb e x : P_ocsp e x -> same_but_ocsp e x = true.
+  Proof. unfold P_ocsp, same_but_ocsp. intros <-. apply cert_eqb_refl. Qed.
+  Lemma P_ari_pb e x : P_ari e x -> same_but_ari e x = true.
+  Proof. unfold P_ari, same_but_ari. intros <-. apply cert_eqb_refl. Qed.
+
+  Lemma set_ocsp_fold_rel upd : forall s,
+    wb_rel P_ocsp (map fst upd) s (fold_left (fun s hv => set_ocsp_at hv s) upd s).
   Proof.
-    induction ops as [|o ops IH]; intros s HI Hwf; [reflexivity|].
-    inversion Hwf as [|? ? Ho Hops]; subst. cbn [trace combine steps_spec map].
-    rewrite step_spec_model by assumption. cbn [andb].
-    apply IH; [apply step_inv; assumption | assumption].
+    induction upd as [|hv upd IH]; intros s; cbn [fold_left map].
+    - apply wb_rel_refl.
+    - eapply (wb_rel_trans P_ocsp P_ocsp_trans).
+      + apply (wb_rel_mono P_ocsp [fst hv]); [intros h [<-|[]]; left; reflexivity|].
+        apply (same_but_wb_rel P_ocsp (fun e => set_ocsp e (snd hv))); [|apply set_ocsp_at_effect].
+        intros e. destruct e; reflexivity.
+      + apply (wb_rel_mono P_ocsp (map fst upd)); [intros h Hh; right; exact Hh | apply IH].
   Qed.
 
-  Lemma inv_b_model (U1 : state -> list name) (U2 : state -> list hash) ops : forall s,
-    Inv s -> Forall (wf_op names_of) ops ->
-    forallb (fun st : option op * state => inv_b names_of cap (U1 (snd st)) (U2 (snd st)) (snd st))
-            (combine (map Some ops) (trace cap s ops)) = true.
+  Lemma setcap_ok_model z vs d :
+    DInv names_of d -> setcap_ok (d_st d) (Z.to_nat z) (d_st (set_capacity z vs d)) = true.
   Proof.
-    induction ops as [|o ops IH]; intros s HI Hwf; [reflexivity|].
-    inversion Hwf as [|? ? Ho Hops]; subst. cbn [trace combine forallb snd map].
-    assert (HI' : Inv (step cap s o)) by (apply step_inv; assumption).
-    rewrite (inv_b_complete names_of cap _ _ _ HI'). cbn [andb]. apply IH; assumption.
+    intros HI. destruct (set_capacity_spec names_of z vs d HI) as (HI' & _ & Hlen & Hsub).
+    unfold setcap_ok. rewrite Hlen, Nat.eqb_refl, andb_true_r.
+    apply forallb_forall. intros [k c] Hin. cbn [fst snd].
+    apply In_alookup in Hin; [|apply (inv_nodup _ _ _ HI')].
+    rewrite (Hsub k c Hin). apply cert_eqb_refl.
   Qed.
 
-  Lemma query_ok_model s q : Inv s -> query_ok s (q, map c_hash (all_matching s q)) = true.
+  Lemma query_ok_model cap s q : Inv names_of cap s -> query_ok s (q, answer s q) = true.
   Proof.
-    intros HI. unfold query_ok. cbn [fst snd]. apply andb_true_iff. split.
+    intros HI. unfold query_ok, answer. cbn [fst snd]. apply andb_true_iff. split.
     - apply forallb_forall. intros h Hin. apply in_map_iff in Hin. destruct Hin as (c & <- & Hc).
       apply (all_matching_exact names_of cap s HI) in Hc. destruct Hc as (Ec & n & Hn & Hin).
       rewrite Ec. unfold covers_query. apply existsb_exists. exists n. split; [exact Hn|].
@@ -107,20 +212,154 @@ Section Spec.
       unfold covers_query in Ecov. apply existsb_exists in Ecov. destruct Ecov as (n & Hn & Hm).
       exists n. split; [exact Hn | apply mem_str_In; exact Hm].
   Qed.
+
+  Lemma cached_hashes_are_keys cap s : Inv names_of cap s -> map c_hash (map snd (cache s)) = akeys (cache s).
+  Proof.
+    intros HI. unfold akeys. rewrite map_map. apply map_ext_in. intros [k c] Hin. cbn [fst snd].
+    apply In_alookup in Hin; [|apply (inv_nodup _ _ s HI)].
+    destruct (inv_cert _ _ s HI k c Hin) as (-> & _). reflexivity.
+  Qed.
+
+  Lemma scan_ok_model cap r s : Inv names_of cap s -> scan_ok r s (view_of (scan_view r s)) = true.
+  Proof.
+    intros HI. unfold scan_ok, view_of. rewrite map_map. cbn [fst].
+    change (map (fun x : cert => c_hash x) (scan_view r s)) with (map c_hash (scan_view r s)).
+    repeat (apply andb_true_iff; split).
+    - apply nodup_b_NoDup. unfold scan_view. apply NoDup_map_filter.
+      pose proof (inv_nodup _ _ s HI) as Hnd. rewrite <- (cached_hashes_are_keys cap s HI) in Hnd. exact Hnd.
+    - apply forallb_forall. intros p Hin. apply in_map_iff in Hin. destruct Hin as (c & <- & Hc). cbn [fst snd].
+      apply (scan_view_exact names_of cap s r c HI) in Hc. destruct Hc as [Ec Hsel].
+      rewrite Ec, Hsel, strs_eqb_refl. reflexivity.
+    - apply forallb_forall. intros [k c] Hin. cbn [fst snd].
+      destruct (scan_sel r c) eqn:Hsel; [|reflexivity]. cbn [negb orb].
+      apply mem_str_In. apply In_alookup in Hin; [|apply (inv_nodup _ _ s HI)].
+      destruct (inv_cert _ _ s HI k c Hin) as (Hh & _). subst k.
+      apply in_map. apply (scan_view_exact names_of cap s r c HI). auto.
+  Qed.
+
+  (** ---- removals: what disappears from the cache map ---- *)
+  Lemma remove_hashes_lookup cap hs : forall s, Inv names_of cap s -> forall k,
+    alookup k (cache (remove_hashes hs s)) = if mem_str k hs then None else alookup k (cache s).
+  Proof.
+    unfold remove_hashes. induction hs as [|h hs IH]; intros s HI k; [reflexivity|].
+    cbn [fold_left]. rewrite IH by (apply remove_cached_inv; exact HI).
+    rewrite alookup_remove_cert. unfold mem_str at 2. cbn [existsb]. fold (mem_str k hs).
+    destruct (mem_str k hs); [rewrite orb_true_r; reflexivity|]. rewrite orb_false_r.
+    unfold cache_get. destruct (alookup h (cache s)) as [c|] eqn:E.
+    - destruct (inv_cert _ _ s HI h c E) as (Hh & _). rewrite Hh, (str_eqb_sym k h). reflexivity.
+    - cbn [zero_cert c_hash].
+      assert (Hnil : alookup [] (cache s) = None).
+      { pose proof (inv_not_mem_nil names_of cap s HI) as Hn. unfold amem in Hn.
+        destruct (alookup [] (cache s)); [discriminate | reflexivity]. }
+      destruct (str_eqb_spec [] k) as [<-|Hne].
+      + rewrite Hnil. destruct (str_eqb [] h); reflexivity.
+      + destruct (str_eqb_spec k h) as [->|Hne']; [exact E | reflexivity].
+  Qed.
+
+  Lemma managed_queue_mem cap s sj k c : Inv names_of cap s -> alookup k (cache s) = Some c ->
+    mem_str k (managed_queue s sj) = managed_gone sj k c.
+  Proof.
+    intros HI Ek. destruct (inv_cert _ _ s HI k c Ek) as (Hh & _).
+    apply Bool.eq_iff_eq_true. rewrite mem_str_In. unfold managed_queue, managed_gone.
+    rewrite in_flat_map, andb_true_iff, existsb_exists. split.
+    - intros (p & Hp & Hin). apply in_map_iff in Hin. destruct Hin as (c' & Hc' & Hf).
+      apply filter_In in Hf. destruct Hf as [Hg Hsel].
+      apply (lookup_exact names_of cap s HI) in Hg. destruct Hg as [Ec' Hn].
+      rewrite Hc', Ek in Ec'. injection Ec' as <-.
+      apply andb_true_iff in Hsel. destruct Hsel as [Hm Hi]. split; [exact Hm|].
+      exists p. split; [exact Hp|]. apply andb_true_iff. split; [apply mem_str_In; exact Hn | exact Hi].
+    - intros (Hm & p & Hp & Hsel). apply andb_true_iff in Hsel. destruct Hsel as [Hn Hi].
+      exists p. split; [exact Hp|]. apply in_map_iff. exists c. split; [exact Hh|].
+      apply filter_In. split.
+      + apply (lookup_exact names_of cap s HI). rewrite Hh. split; [exact Ek | apply mem_str_In; exact Hn].
+      + apply andb_true_iff. split; assumption.
+  Qed.
+
+  Lemma removal_ok_of_lookup cap gone (goneb : hash -> bool) s s' :
+    Inv names_of cap s -> NoDup (akeys (cache s')) ->
+    (forall k, alookup k (cache s') = if goneb k then None else alookup k (cache s)) ->
+    (forall k c, alookup k (cache s) = Some c -> gone k c = goneb k) ->
+    removal_ok gone s s' = true.
+  Proof.
+    intros HI Hnd Hl Hg. unfold removal_ok. apply andb_true_iff. split.
+    - apply forallb_forall. intros [k x] Hin. cbn [fst snd].
+      apply In_alookup in Hin; [|exact Hnd]. rewrite Hl in Hin.
+      destruct (goneb k) eqn:Eg; [discriminate|]. rewrite Hin, cert_eqb_refl, (Hg k x Hin), Eg. reflexivity.
+    - apply forallb_forall. intros [k c] Hin. cbn [fst snd].
+      apply In_alookup in Hin; [|apply (inv_nodup _ _ s HI)].
+      rewrite (Hg k c Hin). destruct (goneb k) eqn:Eg; [reflexivity|]. cbn [orb].
+      apply amem_alookup. exists c. rewrite Hl, Eg. exact Hin.
+  Qed.
+
+  Lemma step_spec_model d o :
+    DInv names_of d -> wf_dop names_of o -> step_spec_b (d_st d) (wstep_of d o) (d_st (dstep d o)) = true.
+  Proof.
+    intros HI Hwf. destruct o as [o|z vs|q| |r]; cbn [wstep_of step_spec_b dstep d_st].
+    - destruct o as [c v|c|old new v|hs|sj|c|upd|h v]; cbn [step].
+      + unfold add_ok. rewrite (readd_ok_model (d_cap d)) by exact HI. apply add_cert_cached.
+      + (* removeCertificate(copy) *)
+        apply (removal_ok_of_lookup (d_cap d) _ (fun k => str_eqb k (c_hash c))); [exact HI | | |reflexivity].
+        * apply (inv_nodup names_of (d_cap d)). apply (step_inv names_of (d_cap d) _ (ORemoveCert c)); [exact HI | exact Hwf].
+        * intros k. rewrite alookup_remove_cert, (str_eqb_sym k). reflexivity.
+      + unfold replace_ok, replace_cert. rewrite add_cert_cached. cbn [andb].
+        destruct (str_eqb_spec (c_hash old) (c_hash new)) as [Heq|Hne]; [reflexivity|]. cbn [orb].
+        apply negb_true_iff. destruct (amem (c_hash old) (cache (add_cert (d_cap d) new v (remove_cert old (d_st d))))) eqn:Em; [|reflexivity].
+        apply add_cert_only_adds in Em. destruct Em as [Em|Em]; [congruence|].
+        cbn [remove_cert cache] in Em. rewrite amem_adelete, str_eqb_refl in Em. discriminate.
+      + (* Cache.Remove(hashes) *)
+        apply (removal_ok_of_lookup (d_cap d) _ (fun k => mem_str k hs)); [exact HI | | |reflexivity].
+        * apply (inv_nodup names_of (d_cap d)), remove_hashes_inv, HI.
+        * intros k. apply (remove_hashes_lookup (d_cap d)), HI.
+      + (* Cache.RemoveManaged(subjects) *)
+        unfold remove_managed.
+        apply (removal_ok_of_lookup (d_cap d) _ (fun k => mem_str k (managed_queue (d_st d) sj))); [exact HI | | |].
+        * apply (inv_nodup names_of (d_cap d)), remove_hashes_inv, HI.
+        * intros k. apply (remove_hashes_lookup (d_cap d)), HI.
+        * intros k c E. symmetry. apply (managed_queue_mem (d_cap d)); [exact HI | exact E].
+      + apply (writeback_ok_of_rel P_ocsp same_but_ocsp P_ocsp_refl P_ocsp_pb (d_cap d)); [exact HI|].
+        apply (same_but_wb_rel P_ocsp (fun e => set_ocsp e (c_ocsp c))); [|apply write_back_effect].
+        intros e. destruct e; reflexivity.
+      + apply (writeback_ok_of_rel P_ocsp same_but_ocsp P_ocsp_refl P_ocsp_pb (d_cap d)); [exact HI|].
+        apply set_ocsp_fold_rel.
+      + apply (writeback_ok_of_rel P_ari same_but_ari P_ari_refl P_ari_pb (d_cap d)); [exact HI|].
+        apply (same_but_wb_rel P_ari (fun e => set_ari e v)); [|apply set_ari_at_effect].
+        intros e. destruct e; reflexivity.
+    - apply setcap_ok_model, HI.
+    - rewrite (state_eqb_refl (d_cap d)) by exact HI. apply (query_ok_model (d_cap d)), HI.
+    - apply (state_eqb_refl (d_cap d)), HI.
+    - rewrite (state_eqb_refl (d_cap d)) by exact HI. apply (scan_ok_model (d_cap d)), HI.
+  Qed.
+
+  Lemma cap_after_model d o : cap_after (d_cap d) (wstep_of d o) = d_cap (dstep d o).
+  Proof.
+    destruct o as [o|z vs|q| |r]; cbn [wstep_of cap_after dstep d_cap]; try reflexivity.
+    unfold set_capacity. cbn [d_cap]. symmetry. apply clamp_cap_eq.
+  Qed.
+
+  Lemma steps_spec_model bn bh ops : forall d,
+    DInv names_of d -> Forall (wf_dop names_of) ops ->
+    steps_spec names_of bn bh (d_cap d) (d_st d) (model_steps d ops) = true.
+  Proof.
+    induction ops as [|o ops IH]; intros d HI Hwf; [reflexivity|].
+    inversion Hwf as [|? ? Ho Hops]; subst. cbn [model_steps steps_spec].
+    assert (HI' : DInv names_of (dstep d o)) by (apply dstep_inv; assumption).
+    rewrite cap_after_model, (inv_b_complete names_of _ _ _ _ HI'), step_spec_model by assumption.
+    cbn [andb]. apply IH; assumption.
+  Qed.
 End Spec.
 
 Theorem spec_ok_of_model cap pool ops queries :
-  Forall (wf_op (names_of_pool (case_certs_of pool ops))) ops ->
+  Forall (wf_dop (names_of_pool (case_certs_of pool ops))) ops ->
   spec_ok (model_case cap pool ops queries) = true.
 Proof.
   intros Hwf. unfold spec_ok. rewrite case_certs_model.
   set (nm := names_of_pool (case_certs_of pool ops)) in *.
-  assert (HI0 : Inv nm cap init) by apply inv_init.
+  assert (HI0 : DInv nm (dinit cap)) by apply dinv_init.
   cbn [k_cap k_steps k_queries model_case].
-  repeat (apply andb_true_iff; split).
-  - apply (inv_b_model nm cap (state_names _) (state_hashes _)); assumption.
-  - apply (steps_spec_model nm cap); assumption.
-  - unfold final_obs. cbn [k_steps model_case]. rewrite final_obs_model.
+  apply andb_true_iff; split.
+  - apply (steps_spec_model nm _ _ ops (dinit cap)); assumption.
+  - unfold final_obs. cbn [k_steps model_case].
+    change init with (d_st (dinit cap)). rewrite final_obs_model.
     apply forallb_forall. intros qr Hin. apply in_map_iff in Hin. destruct Hin as (q & <- & _).
-    apply (query_ok_model nm cap). apply run_inv; assumption.
+    apply (query_ok_model nm (d_cap (drun (dinit cap) ops))). apply drun_inv; assumption.
 Qed.
